@@ -5,7 +5,7 @@ from mir import roots_of, data_deps, DefUse, Place
 from rules_par import find_call, unwrap_aggs
 
 ERR_TYPES = ('std::io::Error', 'fasta::Error', 'fastq::Error')
-PROPAGATORS = PASS_THROUGH | {'std::result::Result::map', 'std::option::Option::map'}
+PROPAGATORS = PASS_THROUGH | {'std::result::Result::map', 'std::option::Option::map', 'std::result::Result::transpose', 'std::option::Option::transpose'}
 SWALLOW = {'std::result::Result::ok', 'std::result::Result::err', 'std::result::Result::unwrap_or',
            'std::result::Result::unwrap_or_else', 'std::result::Result::unwrap_or_default',
            'std::result::Result::is_ok', 'std::result::Result::is_err', 'std::mem::drop',
@@ -213,17 +213,22 @@ def fill_guard_rule(prog, R, f):
             rel = {('Lt', False): (dd, 0), ('Le', False): (dd, 1), ('Gt', True): (dd, 1), ('Ge', True): (dd, 0),
                    ('Lt', True): (-dd, 1), ('Le', True): (-dd, 0), ('Gt', False): (-dd, 0), ('Ge', False): (-dd, 1)}[(op, truth)]
             D, m = rel
-            caps = [k for k in D.t if isinstance(k, tuple) and k[0] == 'call' and 'capacity' in str(k[1])]
-            if len(caps) != 1 or D.t[caps[0]] != -1:
-                continue
-            X = D + Aff.sym(caps[0])
 
             def sub(sym):
                 if isinstance(sym, tuple) and sym[0] == 'H':
                     if sym[1] in closed:
                         return closed[sym[1]]
-                    return ent.env.get(sym[1])
+                    v_ = ent.env.get(sym[1])
+                    return v_ if isinstance(v_, Aff) else None
                 return None
+            # loop-invariant locals (e.g. `free = capacity - len` computed once) are replaced by their entry values first
+            inv = {k[1] for k in D.t if isinstance(k, tuple) and k[0] == 'H' and k[1] not in closed}
+            if inv:
+                D = D.subst(lambda sy: (ent.env.get(sy[1]) if isinstance(ent.env.get(sy[1]), Aff) else None) if (isinstance(sy, tuple) and sy[0] == 'H' and sy[1] in inv) else None)
+            caps = [k for k in D.t if isinstance(k, tuple) and k[0] == 'call' and 'capacity' in str(k[1])]
+            if len(caps) != 1 or D.t[caps[0]] != -1:
+                continue
+            X = D + Aff.sym(caps[0])
             used = [k[1] for k in X.t if isinstance(k, tuple) and k[0] == 'H']
             Xc = X.subst(sub) if all(closed.get(k, 0) is not None for k in used) else None
             if Xc is None:
@@ -232,7 +237,7 @@ def fill_guard_rule(prog, R, f):
             coef_ok = all(k in (E.single(), S.single()) and 0 <= v <= 1 for k, v in Xc.t.items())
             ok = coef_ok and Xc.c <= m
             detail = 'exit when %r - capacity >= %d with %r <= (entry length + bytes read) + %d: buffer full on this exit: %s' % (Xc, m, Xc, Xc.c, ok)
-        R.add('FILL-7', f, 'full-exit-implies-full-buffer', ok, where, detail)
+        R.add('FILL-7', f, 'full-exit-implies-full-buffer', ok, where, detail, undecided=(not ok) and detail.startswith('no comparison'))
     R.floor('FILL-7', 1)
 
 
@@ -349,6 +354,18 @@ def fill_rules(prog, R, f):
         if not did_read:
             if exits:
                 capd = any(isinstance(sy, tuple) and sy[0] == 'call' and 'capacity' in str(sy[1]) for (_, d, _) in p.conds if isinstance(d, Aff) for sy in d.syms())
+                if not capd:
+                    # the quantity compared was derived from the capacity before the loop (`free = capacity - len`)
+                    try:
+                        ent_ = [q for q in ev.run(0, stops={h}) if q.end == ('stop', h)]
+                        for (_, d, _) in p.conds:
+                            if isinstance(d, Aff):
+                                for sy in d.syms():
+                                    if isinstance(sy, tuple) and sy[0] == 'H' and ent_ and isinstance(ent_[0].env.get(sy[1]), Aff):
+                                        if any(isinstance(s2, tuple) and s2[0] == 'call' and 'capacity' in str(s2[1]) for s2 in ent_[0].env[sy[1]].syms()):
+                                            capd = True
+                    except Exception:
+                        pass
                 R.add('FILL-2', f, 'exit:loop-condition', capd, site(f, line), 'left without reading under a condition that %s the capacity (that it implies a full buffer is FILL-7)' % ('compares with' if capd else 'does NOT mention'))
             continue
         var = variant_of(p)
@@ -489,8 +506,10 @@ def buf_rules(prog, R, refill):
             reach = b.cfg.reach_from(cb, removed=mr)
             bad = [x for x in reach if b.blocks[x].term.k == 'return' or
                    (b.blocks[x].term.k == 'call' and prog.local_callee_body(b.blocks[x].term.callee) is refill)]
-            R.add('BUF-1', b, 'consume#%d' % n, not bad and bool(mr), site(b, ct.line),
-                  'consume is followed by BufReader::make_room on every path before a refill / return: %s' % (not bad and bool(mr)))
+            okb = not bad and bool(mr)
+            R.add('BUF-1', b, 'consume#%d' % n, okb, site(b, ct.line),
+                  'consume is followed by BufReader::make_room on every path before a refill / return: %s%s' % (okb, '' if okb or not consume_amount_is_opaque(prog, b, ct) else ' (the amount is a cached quantity / parameter: it may be the whole buffer - not judged)'),
+                  undecided=(not okb) and consume_amount_is_opaque(prog, b, ct))
     R.floor('BUF-1', 3)
     # ---- transitive summaries over the local call graph
     cg = prog.call_graph()
